@@ -929,6 +929,237 @@ pub fn gen_program(rng: &mut Rng) -> (Vec<u8>, Vec<String>) {
     (buf, ops)
 }
 
+// ------------------------------------------------------------------------------------------------
+// The crate's own dependent records (`impl ReadFixedSizeDep for X` outside src/binary/read.rs).
+// input  = M|lib|Type|a,b,..|n|buflen      (numeric components of Args; "-" = none)
+// output = size:S;item:I;seq:Q;arr:A;first:F;last:L;iter:K
+//   size  = T::size(args)                                   | panic
+//   item  = bytes one T::read_dep consumes                  | err:E | panic
+//   seq   = k,bytes consumed by k = min(n, 64) read_dep calls in a row | err:E | panic
+//   arr   = cursor advance, len() of read_array_dep(n, args) | err:E | panic
+//   first / last = ok | err:E | panic | none  (read_item(0), read_item(n-1) of that array)
+//   iter  = number of Ok items, number of Err items of iter_res() (pulled at most 1000 times)
+// The buffer is `buflen` zero bytes (NULL offsets everywhere, relative to a separate table buffer) with the few bytes a record insists on
+// (bitDepth of a BitmapSize) set at every record position.
+use allsorts::bitmap::cbdt::{BigGlyphMetrics, BitmapSize, SbitLineMetrics};
+use allsorts::layout::verif_hooks::{with_private_dep_record, DepRecordProbe};
+use allsorts::layout::{
+    Class1Record, Class2Record, FeatureRecord, LangSysRecord, PairValueRecord, ScriptRecord, ValueFormat, ValueRecord,
+};
+use allsorts::tables::svg::SVGDocumentRecord;
+use allsorts::tables::variable_fonts::stat::AxisValue;
+use allsorts::tables::variable_fonts::VariationRegion;
+
+pub const LIB_TYPES: &[&str] = &[
+    "AxisValue", "VariationRegion", "SVGDocumentRecord", "BitmapSize", "SbitLineMetrics", "BigGlyphMetrics",
+    "ScriptRecord", "FeatureRecord", "LangSysRecord", "ValueRecord", "PairValueRecord", "Class1Record",
+    "Class2Record", "EntryExitRecord", "BaseRecord", "MarkRecord", "ComponentRecord",
+];
+pub const LIB_BUF_MAX: u64 = 1 << 21;
+
+fn popcount8(f: u64) -> u64 {
+    (f & 0xff).count_ones() as u64
+}
+/// the encoded size of one record, from the table layouts (the harness's own reference, used to lay
+/// out the buffer and to choose buffer lengths; the judge has its own)
+pub fn lib_ref_size(ty: &str, a: &[u64]) -> u64 {
+    let g = |i: usize| a.get(i).copied().unwrap_or(0);
+    match ty {
+        "AxisValue" => 6,
+        "VariationRegion" => 6 * g(0),
+        "SVGDocumentRecord" => 12,
+        "BitmapSize" => 48,
+        "SbitLineMetrics" => 12,
+        "BigGlyphMetrics" => 8,
+        "ScriptRecord" | "FeatureRecord" | "LangSysRecord" => 6,
+        "ValueRecord" => 2 * popcount8(g(0)),
+        "PairValueRecord" => 2 + 2 * popcount8(g(0)) + 2 * popcount8(g(1)),
+        "Class2Record" => 2 * popcount8(g(0)) + 2 * popcount8(g(1)),
+        "Class1Record" => g(0).wrapping_mul(2 * popcount8(g(1)) + 2 * popcount8(g(2))),
+        "EntryExitRecord" | "MarkRecord" => 4,
+        "BaseRecord" | "ComponentRecord" => g(0).wrapping_mul(2),
+        _ => panic!("lib type {}", ty),
+    }
+}
+/// number of numeric components of Args
+pub fn lib_arity(ty: &str) -> usize {
+    match ty {
+        "AxisValue" | "VariationRegion" | "ValueRecord" | "BaseRecord" | "ComponentRecord" => 1,
+        "PairValueRecord" | "Class2Record" => 2,
+        "Class1Record" => 3,
+        _ => 0,
+    }
+}
+
+fn res_str<F: FnOnce() -> Result<String, ParseError>>(f: F) -> String {
+    match catch_unwind(AssertUnwindSafe(f)) {
+        Ok(Ok(s)) => s,
+        Ok(Err(e)) => format!("err:{}", perr(&e)),
+        Err(e) => panic_kind(&*e).to_string(),
+    }
+}
+
+struct LibProbe<'b> {
+    buf: &'b [u8],
+    n: usize,
+    out: String,
+}
+impl<'b> LibProbe<'b> {
+    fn run<'a, T: ReadFixedSizeDep>(&mut self, buf: &'a [u8], args: T::Args<'a>) {
+        let n = self.n;
+        let size = res_str(|| Ok(T::size(args).to_string()));
+        let item = res_str(|| {
+            let mut c = ReadScope::new(buf).ctxt();
+            T::read_dep(&mut c, args)?;
+            Ok((buf.len() - c.scope().data().len()).to_string())
+        });
+        let seq = res_str(|| {
+            let mut c = ReadScope::new(buf).ctxt();
+            let k = n.min(64);
+            for _ in 0..k {
+                c.read_dep::<T>(args)?;
+            }
+            Ok(format!("{},{}", k, buf.len() - c.scope().data().len()))
+        });
+        let mut first = "none".to_string();
+        let mut last = "none".to_string();
+        let mut iter = "none".to_string();
+        let arr = match catch_unwind(AssertUnwindSafe(|| {
+            let mut c = ReadScope::new(buf).ctxt();
+            c.read_array_dep::<T>(n, args).map(|a| (a, buf.len() - c.scope().data().len()))
+        })) {
+            Ok(Ok((a, adv))) => {
+                if n > 0 {
+                    first = res_str(|| a.read_item(0).map(|_| "ok".to_string()));
+                    last = res_str(|| a.read_item(n - 1).map(|_| "ok".to_string()));
+                }
+                iter = res_str(|| {
+                    let (mut ok, mut er) = (0, 0);
+                    for x in a.iter_res().take(1000) {
+                        match x {
+                            Ok(_) => ok += 1,
+                            Err(_) => er += 1,
+                        }
+                    }
+                    Ok(format!("{},{}", ok, er))
+                });
+                format!("{},{}", adv, a.len())
+            }
+            Ok(Err(e)) => format!("err:{}", perr(&e)),
+            Err(e) => panic_kind(&*e).to_string(),
+        };
+        self.out = format!("size:{};item:{};seq:{};arr:{};first:{};last:{};iter:{}", size, item, seq, arr, first, last, iter);
+    }
+}
+impl<'b> DepRecordProbe for LibProbe<'b> {
+    fn probe<'a, T: ReadFixedSizeDep>(&mut self, args: T::Args<'a>) {
+        // the scope component of `args` (if any) is a scope over self.buf: same lifetime in practice
+        let buf: &'a [u8] = unsafe { std::mem::transmute::<&'b [u8], &'a [u8]>(self.buf) };
+        self.run::<T>(buf, args)
+    }
+}
+
+pub fn run_lib(ty: &str, a: &[u64], n: usize, buflen: usize) -> String {
+    assert!(buflen as u64 <= LIB_BUF_MAX, "buffer too large");
+    assert!(a.len() == lib_arity(ty), "arity");
+    let mut buf = vec![0u8; buflen];
+    let rs = lib_ref_size(ty, a) as usize;
+    if ty == "BitmapSize" {
+        let mut p = 46;
+        while p < buflen {
+            buf[p] = 1; // bitDepth must be one of 1, 2, 4, 8, 32
+            p += rs;
+        }
+    }
+    let buf = &buf[..];
+    // the table scope the records' offsets are relative to is a separate buffer: all offsets NULL, except
+    // that a MarkRecord insists on an Anchor (format 1) behind its offset
+    static ZERO_TABLE: [u8; 64] = [0; 64];
+    static MARK_TABLE: [u8; 8] = [0, 1, 0, 0, 0, 0, 0, 0];
+    let scope: ReadScope<'static> = if ty == "MarkRecord" { ReadScope::new(&MARK_TABLE) } else { ReadScope::new(&ZERO_TABLE) };
+    let vf = |x: u64| -> ValueFormat {
+        let b = [(x >> 8) as u8, x as u8];
+        ReadScope::new(&b).read::<ValueFormat>().expect("value format above 0xFF")
+    };
+    let u16a = |x: u64| -> u16 { u16::try_from(x).expect("u16 argument") };
+    let us = |x: u64| -> usize { x as usize };
+    let mut p = LibProbe { buf, n, out: String::new() };
+    match ty {
+        "AxisValue" => p.run::<AxisValue>(buf, u16a(a[0])),
+        "VariationRegion" => p.run::<VariationRegion<'_>>(buf, u16a(a[0])),
+        "SVGDocumentRecord" => p.run::<SVGDocumentRecord<'_>>(buf, scope),
+        "BitmapSize" => p.run::<BitmapSize<'_>>(buf, scope),
+        "SbitLineMetrics" => p.run::<SbitLineMetrics>(buf, ()),
+        "BigGlyphMetrics" => p.run::<BigGlyphMetrics>(buf, ()),
+        "ScriptRecord" => p.run::<ScriptRecord>(buf, scope),
+        "FeatureRecord" => p.run::<FeatureRecord>(buf, scope),
+        "LangSysRecord" => p.run::<LangSysRecord>(buf, scope),
+        "ValueRecord" => p.run::<ValueRecord>(buf, (scope, vf(a[0]))),
+        "PairValueRecord" => p.run::<PairValueRecord>(buf, (scope, vf(a[0]), vf(a[1]))),
+        "Class2Record" => p.run::<Class2Record>(buf, (scope, vf(a[0]), vf(a[1]))),
+        "Class1Record" => p.run::<Class1Record>(buf, (scope, us(a[0]), vf(a[1]), vf(a[2]))),
+        _ => {
+            let count = if a.is_empty() { 0 } else { us(a[0]) };
+            assert!(with_private_dep_record(ty, scope, count, &mut p), "lib type {}", ty);
+        }
+    }
+    p.out
+}
+
+fn parse_lib(parts: &[&str]) -> (String, Vec<u64>, usize, usize) {
+    let a: Vec<u64> =
+        if parts[3] == "-" || parts[3].is_empty() { vec![] } else { parts[3].split(',').map(|x| x.parse().expect("arg")).collect() };
+    (parts[2].to_string(), a, parts[4].parse().expect("n"), parts[5].parse().expect("buflen"))
+}
+
+/// argument sweeps: the extremes of the argument type on purpose (u16: 0, 1, the thirds/halves/quarters of
+/// 65536 where a narrow multiplication by a small constant wraps, 65535; value formats: all 256)
+const U16_EDGES: &[u64] = &[
+    0, 1, 2, 3, 4, 5, 7, 8, 16, 255, 256, 257, 4095, 4096, 8191, 8192, 10922, 10923, 13107, 13108, 16383, 16384, 21845,
+    21846, 21847, 32767, 32768, 32769, 43690, 43691, 49152, 65534, 65535,
+];
+fn gen_u16(rng: &mut Rng) -> u64 {
+    match rng.below(10) {
+        0..=4 => *rng.pick(U16_EDGES),
+        5 | 6 => rng.below(40),
+        _ => rng.below(65536),
+    }
+}
+pub fn gen_lib(rng: &mut Rng) -> String {
+    let ty = *rng.pick(LIB_TYPES);
+    let a: Vec<u64> = match ty {
+        "AxisValue" => vec![1 + gen_u16(rng).min(65534)],
+        "VariationRegion" | "BaseRecord" | "ComponentRecord" => vec![gen_u16(rng)],
+        "ValueRecord" => vec![rng.below(256)],
+        "PairValueRecord" | "Class2Record" => vec![rng.below(256), rng.below(256)],
+        "Class1Record" => vec![gen_u16(rng), rng.below(256), rng.below(256)],
+        _ => vec![],
+    };
+    let rs = lib_ref_size(ty, &a);
+    // how many records fit the largest buffer; n: 0, 1, 2, few, exactly what fits
+    let fit = if rs == 0 { 100_000 } else { LIB_BUF_MAX / rs };
+    let n = match rng.below(8) {
+        0 => 0,
+        1 | 2 => 1,
+        3 | 4 => 2,
+        5 => 3 + rng.below(6),
+        6 => 1 + rng.below(70),
+        _ => 65535,
+    }
+    .min(if rs > 4096 { fit.min(3) } else { fit.min(2000) });
+    let need = n * rs;
+    let buflen = match rng.below(8) {
+        0 if need > 0 => need - 1,
+        1 if need > rs && rs > 0 => need - rs,
+        2 => need + 1,
+        3 => need + rs.min(64) + rng.below(5),
+        _ => need,
+    }
+    .min(LIB_BUF_MAX);
+    let args = if a.is_empty() { "-".to_string() } else { a.iter().map(|x| x.to_string()).collect::<Vec<_>>().join(",") };
+    format!("{}|lib|{}|{}|{}|{}", build_mode(), ty, args, n, buflen)
+}
+
 pub fn case_line(mode: &str, buf: &[u8], ops: &[String]) -> String {
     format!("{}|{}|{}", mode, hex(buf), ops.join(" "))
 }
@@ -937,11 +1168,19 @@ fn main() {
     // input = M|BUFHEX|op op ...; the mode letter is replaced by this build's mode
     let run = |input: &str| -> String {
         let parts: Vec<&str> = input.split('|').collect();
+        if parts[1] == "lib" {
+            let (ty, a, n, buflen) = parse_lib(&parts);
+            return run_lib(&ty, &a, n, buflen);
+        }
         let buf = unhex(parts[1]);
         let ops: Vec<String> = parts[2].split(' ').filter(|s| !s.is_empty()).map(String::from).collect();
         run_program(&buf, &ops)
     };
     let mut gen = |rng: &mut Rng| -> String {
+        // one case in eight drives the crate's own dependent records
+        if rng.chance(1, 8) {
+            return gen_lib(rng);
+        }
         let (buf, ops) = gen_program(rng);
         case_line(build_mode(), &buf, &ops)
     };
